@@ -127,7 +127,7 @@ def run_exclude(desc):
 
     @seed(desc['seed'])
     @util.hyp_settings(max(10, desc['n']), shrink=False)
-    @given(seqs, seqs, st.booleans(), st.integers(0, 3))
+    @given(seqs, seqs, st.booleans(), st.integers(0, 6))
     def test(inc, exc, pathmode, how):
         if not inc or not exc:
             return
@@ -154,9 +154,25 @@ def run_exclude(desc):
                     elif how == 2:
                         got = match(n, [pi, '-' + pe], base | mod.NEGATE | mod.MINUSNEGATE)
                         form = 'inline -'
-                    else:
+                    elif how == 3:
                         got = match(n, pi, base | mod.NEGATE, exclude=[pe])
                         form = 'exclude= with NEGATE'
+                    elif how == 4:
+                        # the exclusion first: what is forced for it (DOTMATCH) must not carry over to the inclusion after it
+                        got = match(n, ['!' + pe, pi], base | mod.NEGATE)
+                        form = 'inline !, exclusion first'
+                    elif how == 5:
+                        if '|' in pi or '|' in pe:
+                            continue
+                        got = match(n, '!' + pe + '|' + pi, base | mod.NEGATE | mod.SPLIT)
+                        form = 'SPLIT, exclusion first'
+                    else:
+                        # an exclusion-only list under NEGATEALL: the implicit inclusion keeps the hidden-name rule
+                        want = (n[:1] != '.' and '/.' not in n) and not match(n, pe, base | dotflag)
+                        if pathmode and (n.endswith('/') or not n or n.startswith('/') or '//' in n):
+                            continue
+                        got = match(n, ['!' + pe], base | mod.NEGATE | mod.NEGATEALL)
+                        form = 'NEGATEALL, exclusion only'
                     out.evaluations += 1
                     if bool(got) != bool(want):
                         out.violation({'mode': 'exclude', 'pathmode': pathmode, 'include': pi, 'exclude': pe, 'form': form, 'how': how,
@@ -293,8 +309,12 @@ def replay(case):
             mod, base, dotflag = F, F.EXTMATCH, F.DOTMATCH
             match = lambda n, p, fl, **kw: F.fnmatch(n, p, flags=fl, **kw)
         want = match(n, pi, base) and not match(n, pe, base | dotflag)
-        got = [match(n, pi, base, exclude=pe), match(n, [pi, '!' + pe], base | mod.NEGATE),
-               match(n, [pi, '-' + pe], base | mod.NEGATE | mod.MINUSNEGATE), match(n, pi, base | mod.NEGATE, exclude=[pe])][how]
+        if how == 6:
+            want = (n[:1] != '.' and '/.' not in n) and not match(n, pe, base | dotflag)
+        got = [lambda: match(n, pi, base, exclude=pe), lambda: match(n, [pi, '!' + pe], base | mod.NEGATE),
+               lambda: match(n, [pi, '-' + pe], base | mod.NEGATE | mod.MINUSNEGATE), lambda: match(n, pi, base | mod.NEGATE, exclude=[pe]),
+               lambda: match(n, ['!' + pe, pi], base | mod.NEGATE), lambda: match(n, '!' + pe + '|' + pi, base | mod.NEGATE | mod.SPLIT),
+               lambda: match(n, ['!' + pe], base | mod.NEGATE | mod.NEGATEALL)][how]()
         return bool(got) == bool(want), {'want': bool(want), 'impl': bool(got)}
     if m == 'fs':
         from .. import fscommon as FC
